@@ -11,3 +11,5 @@ pub mod bits;
 pub use bits::*;
 pub mod limbs;
 pub use limbs::*;
+pub mod stdspecs;
+pub use stdspecs::*;
